@@ -8,7 +8,7 @@
 From Coq Require Import List Arith NArith ZArith Bool Lia String ZifyN ZifyBool.
 Import ListNotations.
 Require Import PV.Comb.PState PV.Comb.Bytes PV.Comb.Utf8 PV.Comb.Utf8b PV.Iter.Queue PV.Peg.Ast PV.Peg.Spec.
-Require Import PV.gen.JsonGrammar PV.Json.Rfc8259 PV.Json.Recogniser PV.Json.EvalFacts PV.Json.LexLib.
+Require Import PV.gen.JsonGrammar PV.Json.Rfc8259 PV.Json.Recogniser PV.Json.Utf8Facts PV.Json.EvalFacts PV.Json.LexLib.
 Local Arguments skipn : simpl nomatch.
 
 (* ---- the shipped rules, looked up in the regenerated grammar ---- *)
